@@ -4,7 +4,9 @@ import json, os
 D='/repo/ipld/unixfs/io/directory.go'
 OUT='/verif/.work/mut-c17'
 def mk(name, old, new):
-    s=open(D).read(); assert s.count(old)==1, (name, s.count(old))
+    s=open(D).read()
+    if name=='fix' and s.count(old)==0: print('fix already in /repo, skipped'); return
+    assert s.count(old)==1, (name, s.count(old))
     d=f'{OUT}/{name}'; os.makedirs(d, exist_ok=True)
     f=f'{d}/directory.go'; open(f,'w').write(s.replace(old,new))
     json.dump({"Replace":{D:f}}, open(f'{d}/ov.json','w'))
@@ -31,4 +33,8 @@ mk('m3','''	if mode == oldMode {
 mk('m4','if mtime.Nanosecond() > 0 {','if mtime.Nanosecond() > 1 {')                                 # needs nanos == 1
 mk('m5','return 1 + varintLen(uint64(linkLen)) + linkLen','return 1 + 1 + linkLen')                  # needs a link message >= 128 B
 mk('m6','d.estimatedSize -= linkSerializedSize(name, oldLink.Cid, oldLink.Size)','d.estimatedSize -= linkSerializedSize(name, oldLink.Cid, 0)')  # needs removal/replacement of a link with Tsize >= 128
+# m7 (decision-time only): the link being added is measured without its Tsize in needsToSwitchByBlockSize; the running counter stays exact
+mk('m7','newLinkSize := linkSerializedSize(name, link.Cid, link.Size)','newLinkSize := linkSerializedSize(name, link.Cid, 0)')
+# m8 = seeded C17-b: the replaced entry is measured with the NEW link's Tsize at decision time
+mk('m8','oldLinkSize = linkSerializedSize(name, oldLink.Cid, oldLink.Size)','oldLinkSize = linkSerializedSize(name, oldLink.Cid, link.Size)')
 print('written to', OUT)
